@@ -1078,6 +1078,8 @@ class Engine:
         r = self.c.on_attr(self, st, e, base, e.attr)
         if r is not NotImplemented:
             return r
+        if isinstance(base, Abstract) and base.tag in ("module", "libfunc"):
+            return Abstract("libfunc", name=f"{base.name}.{e.attr}", alias=f"{getattr(base, 'alias', base.name)}.{e.attr}")
         if isinstance(base, Obj):
             if e.attr in base.fields:
                 return base.fields[e.attr]
